@@ -132,7 +132,7 @@ where
 
     let lines_pattern = Regex::new(r"^@@.*?\+(\d+)(,(\d+))?").unwrap();
 
-    let file_filter = Regex::new(&format!("^{file_filter}$"))?;
+    let file_filter = Regex::new(&format!("^(?:{file_filter})$"))?;
 
     let mut current_file = None;
 
